@@ -176,7 +176,8 @@ Definition reviewed : list (string * string * string * string * string * string)
     ("scfg.py", "find_head", "next-iter", "heads", "return next(iter(heads))", "singleton");
     ("scfg.py", "remove_blocks", "for", "names", "for name in names:", "delete-keys");
     ("scfg.py", "reserve_names", "for?", "names", "for name in names:", "commutative");
-    ("scfg.py", "to_dict", "pop", "q", "key, value = q.pop()", "fixpoint");
+    ("scfg.py", "make_scfg", "pop", "parent_names",
+     "object.__setattr__(scfg.region, 'name', parent_names.pop())", "singleton");
     ("transformations.py", "_find_dominators_internal", "comp", "preds",
      "new_doms |= functools.reduce(set.intersection, [doms[p] for p in preds])", "commutative");
     ("transformations.py", "_find_dominators_internal", "extend", "succs_table[n]", "todo.extend(succs_table[n])", "fixpoint");
